@@ -6,6 +6,7 @@ import json, os, subprocess, sys
 prop, tag = sys.argv[1], sys.argv[2]
 avoid = sys.argv[3:]
 where = os.environ.get('SEED_WHERE', '')
+hint = os.environ.get('SEED_HINT', '')
 props = {json.loads(l)['id']: json.loads(l) for l in open('/verif/properties.jsonl')}
 p = props[prop]
 wt, out = '/tmp/seed/wt_' + tag, '/tmp/seed/out_' + tag
@@ -33,6 +34,7 @@ two cooperating edits in different places that each look fine alone — not some
 small diffs (1–15 lines) in the anchored files. Do not special-case a literal input (no `if input == "xyz"`), do not add randomness,
 do not change tests, do not touch Cargo features.
 {('LOCATION CONSTRAINT for this round: the change (or, for a multi-part change, its essential part) MUST be in ' + where + ' — read that file completely first, and follow how its result is used downstream — even if the file is not among the anchors; the property must still be what breaks.') if where else ''}
+{('EXTRA CONSTRAINT for this round: ' + hint) if hint else ''}
 {('Ideas already used by others — pick a DIFFERENT mechanism: ' + '; '.join(avoid)) if avoid else ''}
 
 DELIVERABLES, in {out}/ :
